@@ -467,9 +467,12 @@ class PatternCollection_clear_unused_dims:
         keep = [j for j in range(sh["dims"]) if pb[j] != 1]
         check("one result pattern per operand", len(ret) == sh["ops"])
         for i in range(sh["ops"]):
+            check(f"operand {i}: exactly the dimensions with bound != 1 are kept (a dimension nobody indexes still REPEATS the iteration: dropping it changes the multiset)",
+                  ret[i].num_dims == len(keep))
             check(f"operand {i}: kept bounds", list(ret[i].bounds) == [pb[j] for j in keep])
-            check(f"operand {i}: same operand index on the box of the given bounds",
-                  implies(in_box(x, pb), ev(ret[i], [x[j] for j in keep]) == ev(s[i], x)))
+            if ret[i].num_dims == len(keep):
+                check(f"operand {i}: same operand index on the box of the given bounds",
+                      implies(in_box(x, pb), ev(ret[i], [x[j] for j in keep]) == ev(s[i], x)))
 
     def canary(sh, a, ret):
         check("canary: nothing dropped", ret[0].num_dims == sh["dims"])
